@@ -3,6 +3,7 @@ CONSTANTS
   MaxWorkers = 1
   Runtimes = {"threaded"}
   MaxReq = 1
+  Kinds = {"close", "keep", "ws"}
   Dev = {"StopDropsQueue"}
 SPECIFICATION Spec
 INVARIANTS Inv_DispatchedKept
